@@ -106,6 +106,18 @@ theorem pendingClash_none (op key : Nat) : ∀ (l : List Pending), pendingClash 
         simp only [List.map_cons, List.mem_cons, not_or]
         exact ⟨⟨fun e => h1 e.symm, this.1⟩, ⟨fun e => h2 e.symm, this.2⟩⟩
 
+/-- **no second application** (the repaired D13): once an application is queued, the same operator cannot file
+    another one — with the same or any other key, description or rates — until it is admitted or removed -/
+theorem c10_resubmit_rejected (s s' : App) (c c2 : CreateArgs) (hop : c2.op = c.op)
+    (h : createMsg s (.op c.op) c = .ok s') : ∀ s'', createMsg s' (.op c2.op) c2 ≠ .ok s'' := by
+  intro s'' h2
+  obtain ⟨p, hp, hpo, _⟩ := C15.c15_fixed_fields s s' _ c h
+  have hacc := (C15.c15_handler s' c2).mp ⟨s'', h2⟩
+  obtain ⟨key, _, _, _, _, _, _, hclash, _, _⟩ := hacc
+  have hnot := (pendingClash_none c2.op key s'.pending hclash).1
+  apply hnot
+  rw [hp, hop]
+  simp [hpo]
 theorem removeFirst_sublist (op : Nat) : ∀ l : List Pending, (removeFirst op l).Sublist l
   | [] => List.Sublist.slnil
   | p :: ps => by
